@@ -98,9 +98,13 @@ def checkFrame (l : L) (fs : FrameStep) : L × Option String :=
   | none =>
   -- 2. the verdict on the request, whenever the full model pronounces one
   let outs := fs.after.out
+  -- a trailer section without END_STREAM whose fields are all accepted is refused for its framing (RFC 7540 8.1:
+  -- the C08 model's rule, compared there): the request is not complete, `validate` has no say
+  let framing : Bool := reaches && (st?.map (·.headersFinished)).getD false &&
+    !Frame.hasFlag fr.flags Gen.c_FlagEndStream && (walkFrame s st? fr).1 == .ok
   let full : Option String :=
     match fullVerdict outs sid with
-    | some v => if (outHasGoAway outs).isSome then none else some v
+    | some v => if (outHasGoAway outs).isSome || framing then none else some v
     | none => if reaches && outHasGoAway outs == some Gen.c_EnhanceYourCalm then some s!"goaway{Gen.c_EnhanceYourCalm}" else none
   let (l, err2) : L × Option String :=
     match full, e with
